@@ -108,3 +108,17 @@ Theorem C18_repaired_keys_sufficient :
   key_sufficient repaired CFmm = true /\ key_sufficient repaired CFmmPotential = true.
 Proof. exact repaired_keys_sufficient. Qed.
 Print Assumptions C18_repaired_keys_sufficient.
+
+(* the current source, exactly: the inputs of the cached FMM interfaces that are not part of the cache keys, and the keys
+   themselves (recorded finding); any further omission breaks this theorem *)
+Theorem C18_cache_keys_current :
+  missing cur CFmm = [(FDepth, Own); (FNear, Global); (QReg, Own)] /\
+  missing cur CFmmPotential = [(FDepth, Global); (FNcrit, Global); (FOrder, Global); (QReg, Global)] /\
+  fst (cache_of cur CFmm) = [(FOrder, Own); (FNcrit, Own)] /\ fst (cache_of cur CFmmPotential) = [].
+Proof. exact cur_cache_keys. Qed.
+Print Assumptions C18_cache_keys_current.
+
+(* the only parameter the FMM assemblers read through the global object is quadrature.regular (recorded finding) *)
+Theorem C18_fmm_global_reads_current : global_reads KFmm = [QReg] /\ global_reads KFmmPotential = [QReg].
+Proof. exact cur_fmm_global_reads. Qed.
+Print Assumptions C18_fmm_global_reads_current.
